@@ -59,6 +59,7 @@ class ParserTable:
     terminals: dict             # tag -> kind
     tagvars: dict               # module variable name -> tag string
     prefix_bare_slice: tuple = (None,)   # children of the Slice for a lone ':'
+    prefix_follow: str = "join"          # ':' followed by an expression
     module: object = None
     # prefix tag -> tags of literal tokens read by parse_terminal directly
     prefix_terminal_if: dict = field(default_factory=dict)
@@ -169,7 +170,47 @@ def extract_parser_table(model) -> ParserTable:
     _extract_postfix(model, P, table)
     _extract_prefix(model, P, table)
     _extract_terminals(model, P, table)
+    _extract_join(model, table)
     return table
+
+
+def _extract_join(model, table):
+    """_join_to_slice(left, right): a right operand that is a Slice has its
+    children spliced in after left, anything else makes the pair (left, right)"""
+    m, fn = model.func(f"{PARSER}:_join_to_slice")
+    if len(fn.args.args) != 2:
+        raise AnalysisError("_join_to_slice: arity")
+    Lp, Rp = (("param", a.arg) for a in fn.args.args)
+    where = f"pymbolic/parser.py:{fn.lineno}"
+    saw = {}
+    for ps in summarize(fn, plain=True):
+        if ps.term != "return":
+            continue
+        is_slice = None
+        for _, pol, c in ps.conds:
+            if isinstance(c, tuple) and c[0] == "call" and c[1] == "isinstance" \
+                    and c[2][0] == Rp and _clsname(str(c[2][1][-1])) == "Slice":
+                is_slice = pol
+        v = ps.retval
+        if not (v[0] == "call" and _clsname(v[1]) == "Slice" and len(v[2]) == 1
+                and v[2][0][0] == "lit"):
+            raise AnalysisError(f"_join_to_slice returns {v}")
+        items = v[2][0][2]
+        if items == (Lp, ("star", ("attr", Rp, "children"))):
+            form = "splice"
+        elif items == (Lp, Rp):
+            form = "pair"
+        else:
+            raise AnalysisError(f"_join_to_slice builds Slice from {items}")
+        saw[is_slice] = form
+    if saw.get(True) == "pair" or (None in saw and saw[None] == "pair"
+                                   and True not in saw):
+        raise ModelViolation(
+            "T/parser/slice-join/following-slice-spliced", where,
+            "_join_to_slice no longer splices the children of a following "
+            "slice in: 'a:b:c' is read as Slice((a, Slice((b, c))))")
+    if saw != {True: "splice", False: "pair"}:
+        raise AnalysisError(f"_join_to_slice: paths {saw}")
 
 
 def _chain(stmt):
@@ -207,6 +248,8 @@ def _bare_slice(vals, where):
                 v[1].split(".")[-1] == "Slice" and len(v[2]) == 1 and \
                 v[2][0][0] == "lit" and v[2][0][1] == "tuple":
             pat = []
+            if any(_is_parse_call(x) for x in v[2][0][2]):
+                continue        # the Slice around what follows: _follow_form
             for x in v[2][0][2]:
                 if x == LEFT:
                     pat.append("L")
@@ -220,6 +263,32 @@ def _bare_slice(vals, where):
         raise AnalysisError(f"{where}: expected one Slice literal for a colon "
                             f"with nothing after it, found {sorted(pats, key=str)}")
     return pats.pop()
+
+
+def _follow_form(vals, where, left):
+    """how the Slice is built when an expression follows the colon: "join"
+    (through _join_to_slice: a following slice's children are spliced in) or
+    "wrap" (a plain Slice((left, next)): a following slice stays nested)"""
+    forms = set()
+    for v in vals:
+        if not (isinstance(v, tuple) and v and v[0] == "call"):
+            continue
+        name = v[1].split(".")[-1]
+        if name == "_join_to_slice" and len(v[2]) == 2 and v[2][0] == left \
+                and _is_parse_call(v[2][1]):
+            forms.add("join")
+        elif name == "Slice" and len(v[2]) == 1 and v[2][0][0] == "lit" and \
+                any(_is_parse_call(x) for x in v[2][0][2]):
+            items = v[2][0][2]
+            if len(items) == 2 and items[0] == left and _is_parse_call(items[1]):
+                forms.add("wrap")
+            else:
+                raise AnalysisError(f"{where}: slice around the following "
+                                    f"expression built from {items}")
+    if len(forms) != 1:
+        raise AnalysisError(f"{where}: how the following expression is joined "
+                            f"was not recognised ({sorted(forms)})")
+    return forms.pop()
 
 
 def _is_parse_call(v):
@@ -497,7 +566,8 @@ def _recognise_postfix(tags, guard, gop, body, params, table):
                  for e in es}
         return Branch(tags, guard, gop, "COLON", "Slice",
                       right_prec=precs.pop() if len(precs) == 1 else None,
-                      extra={"bare": _bare_slice(vals, "postfix colon")})
+                      extra={"bare": _bare_slice(vals, "postfix colon"),
+                             "follow": _follow_form(vals, "postfix colon", LEFT)})
     if tag == "comma":
         precs = {_parse_prec(ast_call_value(e)) for es in parse_calls_per_path
                  for e in es}
@@ -679,6 +749,8 @@ def _extract_prefix(model, P, table):
                                  else None)
             table.prefix_bare_slice = _bare_slice(
                 [ps.retval for ps in pss], "prefix colon")
+            table.prefix_follow = _follow_form(
+                [ps.retval for ps in pss], "prefix colon", ("const", None))
             continue
         if tag in ("openpar", "openbracket"):
             close = "_closepar" if tag == "openpar" else "_closebracket"
@@ -931,6 +1003,8 @@ class ModelParser:
             except ModelParseError:
                 self.pos = save
                 return ("Slice", tuple(self.t.prefix_bare_slice))
+            if self.t.prefix_follow == "wrap":
+                return ("Slice", (None, nxt))
             return _join_slice(None, nxt)
         if op == "wildcard":
             self.pos += 1
@@ -1050,6 +1124,8 @@ class ModelParser:
                 self.pos = save
                 return ("Slice", tuple(left if x == "L" else None
                                        for x in br.extra["bare"]))
+            if br.extra.get("follow") == "wrap":
+                return ("Slice", (left, nxt))
             return _join_slice(left, nxt)
         if br.shape == "COMMA":
             self.pos += 1
